@@ -1,15 +1,21 @@
 """Finite-domain abstract interpreter over lens MIR facts (rule kind TABLE, DESIGN.md 2.2).
 
-It walks the dumped CFG of small, loop-free functions with abstract values:
+It walks the dumped CFG of small functions with abstract values:
   * sets of row ids are abstracted pointwise to one bit: "is the arbitrary-but-fixed row x a member";
     union / intersection / difference are the Boolean connectives on that bit (ASSUMED of
     RowIdTreeMap / RoaringBitmap); `is_empty()` on a set whose bit is 0 is unknown and forks.
   * Option / struct / tuple / enum values are kept structurally, so every `match` on a discriminant is
     decided by the enumerated input shape;
-  * anything outside the supported subset (loops beyond a step bound, unknown calls, raw pointers)
-    raises Abort and the rule instance FAILS CLOSED.
+  * strict mode (default): anything outside the supported subset (loops beyond a step bound, unknown calls, raw
+    pointers) raises Abort and the rule instance FAILS CLOSED.
+  * lenient mode ("success-path" interpretation, used for decision tables embedded in larger functions): an unknown
+    call returns the opaque value UNK; a `match` on an opaque Result/Option/Poll/ControlFlow follows the success
+    variant (Ok / Some / Ready / Continue); comparisons and tests on opaque values FORK and every combination is
+    explored; `Iterator::next` yields one opaque element and then None (each loop body is walked once); `.await`
+    is straight-line (poll returns Ready).  What is decided is then the decision structure along the
+    all-calls-succeed paths; error paths are covered by separate dominance rules.
 This is dataflow over a finite lattice enumerated exhaustively, not execution of Lance code and not
-symbolic execution: no solver, no concrete row ids, no memory model beyond locals.
+symbolic execution: no solver, no concrete data, no memory model beyond locals.
 """
 import copy
 
@@ -38,8 +44,20 @@ class Ref:
         self.frame = frame
         self.place = place
 
+    def fields(self):
+        return [e["f"] for e in self.place[1:] if isinstance(e, dict) and "f" in e]
+
+
+class DiscrUnk:
+    """Discriminant of an opaque enum value; carries the variant table of the read."""
+    __slots__ = ("vars",)
+
+    def __init__(self, vars_):
+        self.vars = vars_
+
 
 UNK = ("unknown",)
+PREFER = ("Continue", "Ok", "Some", "Ready")
 
 
 def mk_none():
@@ -60,18 +78,24 @@ class Frame:
     def __init__(self, fn):
         self.fn = fn
         self.locals = {}
+        self.sites = {}
 
 
 class Interp:
-    def __init__(self, db, hooks, step_limit=2000, depth_limit=6):
+    def __init__(self, db, hooks, step_limit=4000, depth_limit=8, lenient=False, loop_iters=1):
         self.db = db
         self.hooks = hooks          # list of (substring, callable(interp, term, argvals) -> value)
         self.step_limit = step_limit
         self.depth_limit = depth_limit
+        self.lenient = lenient
+        self.loop_iters = loop_iters
         self.choices = []
         self.pos = 0
         self.widths = []
         self.visited_fns = set()
+        self.events = []
+        self.memo = {}
+        self.unknown_calls = set()
 
     # ---- nondeterminism (forks are enumerated exhaustively by `explore`) -----------
     def choose(self, n, why=""):
@@ -84,12 +108,22 @@ class Interp:
         self.pos += 1
         return c
 
+    def fork_bool(self, key):
+        """An opaque boolean: both values are explored; the same key gives the same answer within one run."""
+        if key in self.memo:
+            return self.memo[key]
+        v = self.choose(2, key) == 1
+        self.memo[key] = v
+        return v
+
     def explore(self, thunk):
         """Run thunk() for every combination of fork decisions; yields results."""
         self.choices = []
         self.widths = []
         while True:
             self.pos = 0
+            self.events = []
+            self.memo = {}
             yield thunk()
             # backtrack
             while self.choices and self.choices[-1] + 1 >= self.widths[len(self.choices) - 1]:
@@ -103,6 +137,8 @@ class Interp:
     # ---- places ------------------------------------------------------------------
     def read(self, frame, place):
         if place[0] not in frame.locals:
+            if self.lenient:
+                return UNK
             raise Abort("read of unset local _%d in %s" % (place[0], frame.fn.path))
         v = frame.locals[place[0]]
         for e in place[1:]:
@@ -110,53 +146,71 @@ class Interp:
         return v
 
     def _proj(self, v, e, frame):
+        if v is UNK and self.lenient:
+            return UNK
         if e == "*":
             if isinstance(v, Ref):
                 return self.read(v.frame, v.place)
             if isinstance(v, str):
                 return v  # &'static str constant: the referent is the string itself
+            if self.lenient:
+                return v
             raise Abort("deref of non-reference %r in %s" % (v, frame.fn.path))
         if isinstance(e, dict):
             if "f" in e:
                 if isinstance(v, dict):
                     if e["f"] not in v:
+                        if self.lenient:
+                            return UNK
                         raise Abort("field %s missing on %r" % (e["f"], v))
                     return v[e["f"]]
                 if isinstance(v, list):
-                    return v[int(e["f"])]
+                    i = int(e["f"])
+                    if i < len(v):
+                        return v[i]
+                if self.lenient:
+                    return UNK
                 raise Abort("field %s of non-aggregate %r" % (e["f"], v))
             if "d" in e:
                 if isinstance(v, dict) and v.get("$variant") == e["d"]:
                     return v
+                if self.lenient:
+                    return UNK
                 raise Abort("downcast to %s of %r" % (e["d"], v))
+            if self.lenient:
+                return UNK
         raise Abort("unsupported projection %r" % (e,))
 
     def write(self, frame, place, val):
         if len(place) == 1:
             frame.locals[place[0]] = val
             return
-        # navigate to the container of the last projection
-        base = [place[0]]
         cur_frame = frame
-        v = frame.locals.get(place[0])
+        v = frame.locals.get(place[0], UNK if self.lenient else None)
         path = place[1:]
         for i, e in enumerate(path):
             last = i == len(path) - 1
+            if v is UNK and self.lenient:
+                return   # write into opaque storage: ignored
             if e == "*":
                 if not isinstance(v, Ref):
+                    if self.lenient:
+                        return
                     raise Abort("write through non-reference")
                 if last:
                     self.write(v.frame, v.place, val)
                     return
-                cur_frame, base = v.frame, list(v.place)
+                cur_frame = v.frame
                 v = self.read(v.frame, v.place)
                 continue
             if isinstance(e, dict) and "f" in e:
                 if last:
                     if isinstance(v, dict):
                         v[e["f"]] = val
-                    elif isinstance(v, list):
+                    elif isinstance(v, list) and int(e["f"]) < len(v):
                         v[int(e["f"])] = val
+                    elif self.lenient:
+                        return
                     else:
                         raise Abort("field write on %r" % (v,))
                     return
@@ -164,6 +218,8 @@ class Interp:
                 continue
             if isinstance(e, dict) and "d" in e:
                 continue
+            if self.lenient:
+                return
             raise Abort("unsupported write projection %r" % (e,))
 
     def operand(self, frame, op):
@@ -179,7 +235,7 @@ class Interp:
         return UNK
 
     # ---- rvalues -----------------------------------------------------------------
-    def rvalue(self, frame, rv):
+    def rvalue(self, frame, rv, site=None):
         r = rv["r"]
         if r == "use":
             return self.operand(frame, rv["op"])
@@ -188,6 +244,8 @@ class Interp:
         if r == "discr":
             v = self.read(frame, rv["place"])
             if not isinstance(v, dict) or "$variant" not in v:
+                if self.lenient:
+                    return DiscrUnk(rv.get("vars", {}))
                 raise Abort("discriminant of %r" % (v,))
             inv = {name: int(d) for d, name in rv.get("vars", {}).items()}
             if v["$variant"] not in inv:
@@ -199,26 +257,47 @@ class Interp:
                 return mk_adt(rv["adt"].split("::")[-1], rv["variant"], dict(zip(rv["fields"], ops)))
             if rv.get("tuple") or rv.get("array"):
                 return ops
+            if rv.get("closure"):
+                d = {"$closure": rv["closure"]}
+                d.update(dict(zip(rv.get("fields", []), ops)))
+                return d
             raise Abort("unsupported aggregate %r" % rv)
         if r == "un":
             a = self.operand(frame, rv["a"])
             if rv["op"] == "Not" and isinstance(a, bool):
                 return not a
+            if self.lenient:
+                if rv["op"] == "Not":
+                    return self.fork_bool(("not", frame.fn.id, site))
+                return UNK
             raise Abort("unsupported unary %s on %r" % (rv["op"], a))
         if r == "bin":
             a = self.operand(frame, rv["a"])
             b = self.operand(frame, rv["b"])
             op = rv["op"]
-            if a is UNK or b is UNK:
-                raise Abort("binary op on unknown")
+            concrete = isinstance(a, (int, bool, str)) and isinstance(b, (int, bool, str))
+            if not concrete:
+                if not self.lenient:
+                    raise Abort("binary op %s on non-concrete values" % op)
+                if op in ("Eq", "Ne", "Lt", "Le", "Gt", "Ge"):
+                    return self.fork_bool(("cmp", frame.fn.id, site, op))
+                if op.endswith("WithOverflow"):
+                    return [UNK, False]
+                return UNK
             table = {"Eq": lambda: a == b, "Ne": lambda: a != b, "BitAnd": lambda: a & b, "BitOr": lambda: a | b,
                      "BitXor": lambda: a ^ b, "Lt": lambda: a < b, "Le": lambda: a <= b, "Gt": lambda: a > b,
-                     "Ge": lambda: a >= b}
+                     "Ge": lambda: a >= b, "Add": lambda: a + b, "Sub": lambda: a - b, "Mul": lambda: a * b}
             if op in table:
                 return table[op]()
+            if op.endswith("WithOverflow") and op[:-12] in table:
+                return [table[op[:-12]](), False]
+            if self.lenient:
+                return UNK
             raise Abort("unsupported binary %s" % op)
         if r == "cast":
             return self.operand(frame, rv["op"])
+        if self.lenient:
+            return UNK
         raise Abort("unsupported rvalue %s" % r)
 
     # ---- execution ---------------------------------------------------------------
@@ -231,7 +310,7 @@ class Interp:
         fr = Frame(fn)
         argc = fn.r["argc"]
         if len(args) != argc:
-            raise Abort("arity mismatch calling %s" % fn.path)
+            raise Abort("arity mismatch calling %s (%d vs %d)" % (fn.path, len(args), argc))
         for i, a in enumerate(args):
             fr.locals[i + 1] = a
         bb = 0
@@ -242,16 +321,15 @@ class Interp:
             if steps > self.step_limit:
                 raise Abort("step limit in %s (loop?)" % fn.path)
             b = blocks[bb]
-            for s in b["st"]:
+            for j, s in enumerate(b["st"]):
                 if "rv" in s:
-                    self.write(fr, s["lhs"], self.rvalue(fr, s["rv"]))
+                    self.write(fr, s["lhs"], self.rvalue(fr, s["rv"], site=(bb, j)))
                 elif "setdiscr" in s:
-                    raise Abort("SetDiscriminant unsupported")
+                    if not self.lenient:
+                        raise Abort("SetDiscriminant unsupported")
             t = b["term"]
             k = t["t"]
-            if k == "goto":
-                bb = t["to"]
-            elif k == "drop":
+            if k in ("goto", "drop", "assert"):
                 bb = t["to"]
             elif k == "return":
                 return fr.locals.get(0, [])
@@ -259,8 +337,34 @@ class Interp:
                 v = self.operand(fr, t["on"])
                 if isinstance(v, bool):
                     v = int(v)
+                if isinstance(v, DiscrUnk):
+                    nxt = None
+                    names = {int(d): n for d, n in v.vars.items()}
+                    for want in PREFER:
+                        for val, tgt in t["arms"]:
+                            if names.get(val) == want:
+                                nxt = tgt
+                                break
+                        if nxt is not None:
+                            break
+                    if nxt is None:
+                        tg = [tgt for _, tgt in t["arms"]]
+                        if t["else"] not in tg and len(names) > len(t["arms"]):
+                            tg.append(t["else"])
+                        nxt = tg[self.choose(len(tg), "enum")]
+                    bb = nxt
+                    continue
                 if not isinstance(v, int):
-                    raise Abort("switch on non-concrete value %r in %s bb%d (L%s)" % (v, fn.path, bb, t.get("ln")))
+                    if not self.lenient:
+                        raise Abort("switch on non-concrete value %r in %s bb%d (L%s)" % (v, fn.path, bb, t.get("ln")))
+                    tg = []
+                    for _, tgt in t["arms"]:
+                        if tgt not in tg:
+                            tg.append(tgt)
+                    if t["else"] not in tg:
+                        tg.append(t["else"])
+                    bb = tg[self.choose(len(tg), "switch")]
+                    continue
                 nxt = t["else"]
                 for val, tgt in t["arms"]:
                     if val == v:
@@ -269,33 +373,82 @@ class Interp:
                 bb = nxt
             elif k == "call":
                 argv = [self.operand(fr, a) for a in t["args"]]
-                res = self.do_call(fr, t, argv, depth)
+                res = self.do_call(fr, t, argv, depth, bb)
                 self.write(fr, t["dest"], res)
                 if t.get("to") is None:
                     raise Abort("diverging call %s" % (t.get("rp") or t.get("p")))
                 bb = t["to"]
-            elif k == "assert":
-                bb = t["to"]
             elif k == "unreachable":
                 raise Abort("reached `unreachable` in %s bb%d (L%s)" % (fn.path, bb, t.get("ln")))
+            elif k == "yield" and self.lenient:
+                raise Abort("reached a Pending await in %s" % fn.path)
             else:
                 raise Abort("unsupported terminator %s in %s" % (k, fn.path))
 
-    def do_call(self, frame, t, argv, depth):
+    def do_call(self, frame, t, argv, depth, bb=None):
         names = [t.get(k) or "" for k in ("rp", "p", "full")]
         for sub, hook in self.hooks:
             if any(sub in n for n in names):
                 return hook(self, t, argv)
+        if self.lenient:
+            r = self._builtin(frame, t, argv, depth, bb, names)
+            if r is not NotImplemented:
+                return r
         rid = t.get("rid")
-        if rid and rid in self.db.fns and self.db.fns[rid].focus:
+        if rid and rid in self.db.fns and self.db.fns[rid].focus and "{closure" not in rid:
             return self.call_fn(self.db.fns[rid], argv, depth + 1)
+        if self.lenient:
+            self.unknown_calls.add(names[0] or names[1])
+            return UNK
         raise Abort("unknown call %s at L%s in %s" % (names[0] or names[1], t.get("ln"), frame.fn.path))
 
+    def _builtin(self, frame, t, argv, depth, bb, names):
+        nm = names[0] or names[1]
+        full = names[2]
+        if "IntoFuture>::into_future" in nm or "IntoFuture::into_future" in nm or "Pin::<Ptr>::new_unchecked" in nm or \
+                "Pin<Ptr>>::new_unchecked" in nm or nm.endswith("::new_unchecked"):
+            return argv[0]
+        if "future::get_context" in nm:
+            return UNK
+        if "Future>::poll" in nm or "Future::poll" in nm or "::{closure#" in nm and "poll" in (t.get("p") or ""):
+            target = self.deref(argv[0])
+            if isinstance(target, dict) and "$closure" in target and target["$closure"] in self.db.fns and \
+                    self.db.fns[target["$closure"]].focus:
+                v = self.call_fn(self.db.fns[target["$closure"]], [target, UNK], depth + 1)
+                return mk_adt("Poll", "Ready", {"0": v})
+            if isinstance(target, tuple) and len(target) == 2 and target[0] == "future":
+                return mk_adt("Poll", "Ready", {"0": target[1]})
+            return mk_adt("Poll", "Ready", {"0": UNK})
+        if "Iterator>::next" in nm or "Iterator::next" in nm:
+            n = frame.sites.get(bb, 0)
+            frame.sites[bb] = n + 1
+            return mk_some(UNK) if n < self.loop_iters else mk_none()
+        if "Try>::branch" in nm or "Try::branch" in nm:
+            v = self.deref(argv[0])
+            if isinstance(v, dict) and v.get("$variant") in ("Ok", "Some"):
+                return mk_adt("ControlFlow", "Continue", {"0": v.get("0", UNK)})
+            if isinstance(v, dict) and v.get("$variant") in ("Err", "None"):
+                return mk_adt("ControlFlow", "Break", {"0": v})
+            return UNK
+        if "Clone>::clone" in nm or nm.endswith("::clone"):
+            v = self.deref(argv[0])
+            return clone(v)
+        if "Deref>::deref" in nm or "DerefMut>::deref_mut" in nm or "AsRef" in nm and "::as_ref" in nm or "Borrow" in nm and "::borrow" in nm:
+            return argv[0]
+        return NotImplemented
+
     def deref(self, v):
-        while isinstance(v, Ref):
+        n = 0
+        while isinstance(v, Ref) and n < 50:
             v = self.read(v.frame, v.place)
+            n += 1
         return v
 
 
 def clone(v):
-    return copy.deepcopy(v) if not isinstance(v, Ref) else v
+    if isinstance(v, Ref) or v is UNK:
+        return v
+    try:
+        return copy.deepcopy(v)
+    except Exception:
+        return v
